@@ -234,4 +234,10 @@ func main() {
 		eq(fmt.Sprintf("gen_Reach 20 %s %s %s", zl(off), zl(adj), z(int64(r))), opt(zl(sem.Reach(off, adj, r))))
 	}
 	eq(fmt.Sprintf("gen_Reach 2 %s %s (0)%%Z", zl(off), zl(adj)), "None")
+	// ---- goto found out of a search loop
+	for _, p := range [][2][]int{{{1, 2, 3}, {2, 5, 5, 1, 7}}, {{}, {4, 4}}, {{9}, {}}, {{3, 3}, {3, 8}}} {
+		eq(fmt.Sprintf("gen_AddUnique %s %s", zl(p[0]), zl(p[1])), zl(sem.AddUnique(append([]int{}, p[0]...), p[1])))
+		a, l := sem.CountNew(append([]int{}, p[0]...), p[1])
+		eq(fmt.Sprintf("gen_CountNew %s %s", zl(p[0]), zl(p[1])), fmt.Sprintf("(%s, %s)", z(int64(a)), z(int64(l))))
+	}
 }
